@@ -43,7 +43,7 @@ def run_property(prop: str, tier: str) -> int:
     # the infrastructure contracts are checked even when the property's own run stops on an engine error: a change to
     # schema.sql or a constant table can both break the property and make the main run crash (violations take
     # precedence over engine errors in the exit code)
-    for step in (mod.run, infrastructure, finding_probes):
+    for step in (mod.run, infrastructure, shared_contracts, finding_probes):
         try:
             step(sess)
         except Unsupported as exc:
@@ -60,6 +60,51 @@ def run_property(prop: str, tier: str) -> int:
 DB_PROPS = {'C01', 'C03', 'C04', 'C05', 'C06', 'C07', 'C08', 'C09', 'C10', 'C11', 'C12', 'C17', 'C18', 'C19', 'C20'}
 FORMAT_PROPS = {'C01', 'C02', 'C03', 'C07', 'C11', 'C16', 'C20'}
 WRAPPER_PROPS = {'C04', 'C08', 'C09', 'C10', 'C17'}
+
+
+# contracts that several properties stand on beyond their own anchors (a regression of one of them breaks each of
+# these properties): which lexicons a specifier selects; remove() deleting exactly the selection; _collect_frames;
+# add() raising no KeyError/TypeError on a normal-form resource; Morphy's tables; identity of ILI objects
+SELECTION_PROPS = {'C05', 'C10'}                    # C04, C08, C12 include the find_lexicons obligations themselves
+REMOVE_PROPS = {'C04', 'C05', 'C06'}                # C08 runs it in its own stand-in
+FRAMES_PROPS = {'C06', 'C20'}                       # C01, C07 run it themselves
+NO_RAISE_PROPS = {'C07', 'C20'}                     # C01 runs it itself
+MORPHY_PROPS = {'C09'}                              # C17 runs it itself
+ILI_IDENTITY_PROPS = {'C19'}                        # C10 runs it itself
+
+
+def shared_contracts(sess: Session):
+    prop = sess.prop
+    seen = {r.ob.name for r in sess.results}
+
+    def check_all(obs):
+        for ob in obs:
+            if isinstance(ob, tuple):
+                sess.unsupported(ob[1], ob[2])
+                continue
+            ob.prop = prop
+            if ob.name not in seen:
+                seen.add(ob.name)
+                sess.check(ob)
+    if prop in SELECTION_PROPS:
+        from contracts import C08
+        check_all(C08.deductive_obligations())
+    if prop in REMOVE_PROPS:
+        from contracts import C08
+        C08.remove_selection_bounded(sess)
+    if prop in FRAMES_PROPS:
+        from contracts import C01
+        C01.collect_frames_bounded(sess)
+    if prop in NO_RAISE_PROPS:
+        from contracts import C01
+        check_all(C01.add_no_raise_obligations())
+    if prop in MORPHY_PROPS:
+        from contracts import C17
+        C17.init_bounded(sess)
+        C17.call_bounded(sess)
+    if prop in ILI_IDENTITY_PROPS:
+        from contracts import C10
+        check_all([ob for ob in C10.identity_obligations() if '.ILI.' in ob.name])
 
 
 def infrastructure(sess: Session):
